@@ -34,7 +34,7 @@ def load_corpus(pid):
 
 
 HOOK_COMMITS = ["29e0810", "739e797", "cf39cf9", "652b91e", "e71d18b", "87e24fd", "a0b177c", "d307356", "a2cf7a8", "32ea923",
-                "c3212bb", "2017279", "f82d6ac", "f4f6e91", "3d9871e", "eae7527", "430b815", "50578be", "8cabe9e", "dbfd1e8", "b5be554", "2061294", "5e81022", "fbbe690", "b82c48c", "4e87dc5", "3e170f4"]
+                "c3212bb", "2017279", "f82d6ac", "f4f6e91", "3d9871e", "eae7527", "430b815", "50578be", "8cabe9e", "dbfd1e8", "b5be554", "2061294", "5e81022", "fbbe690", "b82c48c", "4e87dc5", "3e170f4", "f5496c2"]
 NOT_CLAIMED = {}
 
 
@@ -233,6 +233,9 @@ class C01(ResolveSpec):
             if i % 10 == 8:
                 # two trusted entries for one publisher: each counts for its own criteria
                 gen.boost_two_trusted(rng, c)
+            if i % 10 == 6:
+                # wildcard audits of one crate in two sources, entry #0 of each, with different criteria
+                gen.boost_wild_two_sources(rng, c)
             cases.append(c)
         return cases
 
@@ -316,6 +319,12 @@ class C02(ResolveSpec):
             if i % 8 == 5:
                 # a crate certified only by the SECOND of two trusted entries naming its publisher
                 gen.boost_two_trusted(rng, c)
+            if i % 8 == 2:
+                # a table with a redundant direct implication in the middle of a list
+                gen.boost_redundant_implies(rng, c)
+            if i % 8 == 7:
+                # a workspace member listed before the member that depends on it is not a top-level crate
+                gen.boost_member_order(rng, c)
             cases.append(c)
         return cases
 
@@ -600,7 +609,8 @@ class C05(ResolveSpec):
     design_ref = "DESIGN.md §4 C05"
     coq_files = ["Properties/C05.v"]
     theorems = ["C05_exact_meaning", "C05_closure_is_least", "C05_reorder_duplicate", "C05_replace_by_closure",
-                "C05_replace_by_minimal", "C05_minimal_has_no_implied_duplicates", "C05_edges_use_closure", "C05_verdict_invariant_under_rewriting", "C05_verdict_invariant_under_policy_rewriting", "C05_verdict_invariant_store_and_policy", "C05_verdict_invariant_reorder_duplicate", "C05_verdict_invariant_closure", "C05_verdict_invariant_minimal"]
+                "C05_replace_by_minimal", "C05_minimal_has_no_implied_duplicates", "C05_edges_use_closure", "C05_verdict_invariant_under_rewriting", "C05_verdict_invariant_under_policy_rewriting", "C05_verdict_invariant_store_and_policy", "C05_verdict_invariant_reorder_duplicate", "C05_verdict_invariant_closure", "C05_verdict_invariant_minimal",
+                "C05_certify_records_what_was_asked", "C05_certify_writes_the_requested_criteria", "C05_folding_with_a_weaker_record_refuted"]
     rule = ("criteria tables with 2-4 custom criteria (chains, diamonds, customs implying built-ins); every base store is paired with "
             "rewritten stores (all non-violation lists replaced by their closure / minimal set / shuffled+duplicated; records for a "
             "crate outside the graph added); non-trivial = the base store has a custom criterion with a non-empty implies list and a "
@@ -620,6 +630,10 @@ class C05(ResolveSpec):
                 gen.boost_grants(rng, base)
                 gen.boost_grants(rng, base)
                 base = gen.finalize(base)
+            if i % 5 == 1:
+                # a table with a redundant direct implication in the middle of a list (the closure must not stop there)
+                gen.boost_redundant_implies(rng, base)
+                base = gen.finalize(base)
             out.append(base)
             for how in ("closure", "minimal", "shuffle", "ghost"):
                 v = dict(base)
@@ -629,7 +643,7 @@ class C05(ResolveSpec):
         return out
 
     def model_modules_paths(self):
-        return ["Show", "ShowUpdate"]
+        return ["Show", "ShowUpdate", "ShowCollapse"]
 
     def run(self, rng, tier, work, model_ok=True, ncases=None, replay=None):
         if replay:
@@ -1129,7 +1143,8 @@ class C07(ImportSpec):
     theorems = ["C07_mapping", "C07_unmapped_contributes_nothing", "C07_builtins_map_to_themselves", "C07_map_overrides",
                 "C07_exclude_audits_and_violations", "C07_exclude_wildcard_audits", "C07_imported_entries_come_from_the_peer",
                 "C07_multi_url_is_union", "C07_freshness_marking_keeps_entries",
-                "C07_multi_url_verdict_is_that_of_the_union", "C07_verdict_is_a_function_of_the_remaining_records"]
+                "C07_multi_url_verdict_is_that_of_the_union", "C07_verdict_is_a_function_of_the_remaining_records",
+                "C07_accepted_lock_is_in_step", "C07_stale_excluded_entry_is_refused"]
     level_text = ("Theorems about the model of fetch_single_imported_audit / multi-URL aggregation / freshness marking, for every peer "
                   "file, criteria-map and exclude list: C07_mapping (an imported entry denotes locally exactly the union over the "
                   "closure of its criteria in the peer's table of what the criteria-map — consulted first — or the built-in rule maps "
@@ -1844,11 +1859,12 @@ def table_fault_present(case, kind):
 
 class C15(SimpleSpec):
     pid = "C15"
-    model_imports = ["Base", "Extracted", "Criteria", "Validate"]
+    model_imports = ["Base", "Extracted", "Criteria", "Validate", "Imports", "LockSync", "ValidateLock"]
     coq_files = ["Properties/C15.v"]
     theorems = ["C15_undefined_reference_refused", "C15_every_indexed_site_is_checked", "C15_validated_store_does_not_index_unknown",
                 "C15_no_crash", "C15_self_implication_refused", "C15_cycle_refused", "C15_builtin_redefined_refused",
-                "C15_too_many_criteria_refused", "C15_peer_cycle_refused", "C15_wildcard_end_cap"]
+                "C15_too_many_criteria_refused", "C15_peer_cycle_refused", "C15_wildcard_end_cap",
+                "C15_no_crash_with_lock_test", "C15_lock_test_never_panics"]
     level_text = ("Theorems about the model of Store::validate's criteria checks and of every place a criteria name is indexed into the "
                   "mapper: a reference to an undefined criterion at any checked site is refused; every site that is indexed on the way "
                   "to a verdict (locked and unlocked) is checked — the list of checked sites is re-read from Store::validate by the "
@@ -1871,10 +1887,17 @@ class C15(SimpleSpec):
     quick_n = 300
 
     def model_modules_paths(self):
-        return ["Validate"]
+        return ["ValidateLock"]
 
     def gen_cases(self, rng, n):
-        return [gen.gen_validate_case(rng, f"v{i}") for i in range(n)]
+        out = []
+        for i in range(n):
+            c = gen.gen_validate_case(rng, f"v{i}")
+            if i % 3 == 2 and not c.get("faults"):
+                # a peer entry mixing known and unknown criteria (unlocked): stripped, not crashed on, not counted
+                c = gen.boost_peer_mixed_unknown(rng, c)
+            out.append(c)
+        return out
 
     def findings(self):
         out = []
@@ -1885,8 +1908,8 @@ class C15(SimpleSpec):
     def model_expr(self, o):
         mi = o["model_input"]
         b = lambda v: "true" if v else "false"  # noqa
-        return (f"match load_outcome {b(mi['locked'])} {b(mi['shadows'])} {coq(mi['table'])} {coq(mi['max_end'])} {coq(mi['ends'])} "
-                f"{coq(mi['refs'])} {coq(mi.get('peers', []))} with Refused => \"refused\" | Panics => \"panics\" | Proceeds => \"proceeds\" end")
+        return (f"match load_outcome_lock {b(mi['locked'])} {b(mi['shadows'])} {coq(mi['table'])} {coq(mi['max_end'])} {coq(mi['ends'])} "
+                f"{coq(mi['refs'])} {coq(mi.get('peers', []))} {coq(mi.get('imports_cfg', []))} {coq(mi.get('lock_sections', []))} with Refused => \"refused\" | Panics => \"panics\" | Proceeds => \"proceeds\" end")
 
     def canon(self, text):
         if text.startswith("(outcome"):
@@ -1894,7 +1917,7 @@ class C15(SimpleSpec):
             kind = parts[1]
             if kind == "refused":
                 kinds = parts[2:]
-                if not ("InvalidCriteria" in kinds or "BadWildcardEndDate" in kinds):
+                if not ("InvalidCriteria" in kinds or "BadWildcardEndDate" in kinds or "ImportsLockOutdated" in kinds):
                     return "refused-other"
             return kind
         return text
@@ -2440,6 +2463,7 @@ class HistorySpec(Spec):
 class _C05Hist(HistorySpec):
     """the history stage of the C05 check: the audits `certify` writes denote the criteria that were asked for / recorded"""
     pid = "C05"
+    compare_user_commands = True
     oracle_fn = staticmethod(hist.oracle_c05)
 
     def gen_cases(self, rng, n):
@@ -2516,7 +2540,7 @@ class C11(HistorySpec):
                 "C11_exemptions_only_narrowed", "C11_no_exemptions_flag", "C11_modes_that_may_add_exemptions",
                 "C11_updates_never_widen_what_is_certified", "C11_check_never_widens", "C11_prune_never_widens",
                 "C11_regenerate_imports_never_widens", "C11_cleanups_never_widen",
-                "C11_trust_changes_one_entry", "C11_trusted_criteria_mean_the_request"]
+                "C11_trust_changes_one_entry", "C11_trusted_criteria_mean_the_request", "C11_certify_fold_certifies_nothing_new"]
     level_text = ("Theorems about the model of get_store_updates, for every store, graph and update mode: local audits are only "
                   "removed (untouched with --no-audits); every imports.lock entry written is an element of the live set with its "
                   "freshness flag cleared; local wildcard audits and trusted entries are never part of an update; outside "
@@ -2537,7 +2561,7 @@ class C11(HistorySpec):
     assumptions = C09.assumptions
 
     def model_modules_paths(self):
-        return ["ShowUpdate", "ShowUser"]
+        return ["ShowUpdate", "ShowUser", "ShowCollapse"]
 
 
 class C13(HistorySpec):
